@@ -33,6 +33,18 @@ CHECKS = {
  "C09": ("online reference-model monitor, bounded-exhaustive operation sequences + long random sequences",
          "The real LRUCache is stepped in lock-step with a 30-line reference LRU; return value, Len, removal-callback log and full recency order (Dump) are compared after every single operation. All sequences up to the length bound over a 10-letter alphabet on capacities 0..4 are enumerated completely; long random sequences cross the map-rebuild threshold thousands of times.",
          "Trusts the reference model's reading of the statement (Store on a live key replaces and touches, no callback on replacement); sequences longer than the bound are sampled, not enumerated.", "§3 C09"),
+ "C02": ("reference-model monitor: independent validator + clause parser, sequence comparison of (path, rule-instance marker, echo) on run-time synthesised struct types",
+         "Random struct types built with reflect.StructOf (nesting through values, pointers, slices, arrays, maps; unexported fields) carry 0-5 rules per field with unique custom messages, repeated rules, empty items, unknown names and either/botheq groups; values are tuned so each rule fails about half the time. The parsed clause sequence of Struct / ValidateStruct / StructForFn / top-level slice, array and map inputs / Var / Map / Url must equal the independent reference validator's: same clauses, none missing, none duplicated, declaration-then-rule order (Go map entries and group clauses as multisets), echo of scalars, no trailing separator, nil iff no clause.",
+         "The reference validator (harness/internal/ref) is trusted as the reading of the documentation; cases with a rule whose verdict the documentation leaves open are skipped and counted; messages never contain the separator or a label.", "§3 C02"),
+ "C03": ("reference-model monitor over a completely enumerated cross product (type x emptiness state x rule form x entry point)",
+         "Every combination of 33 field types, their emptiness states (zero, nil, empty non-nil, populated), every rule applicable to the kind written as R / required,R / R,required / required, and seven entry points (struct tag, struct RM, Var, map[string]T, map[string]interface{}, []map, Url incl. absent / empty / duplicated keys) is executed; required must be reported iff the value is empty and no other rule may produce a clause on an empty value.",
+         "time.Time fields excluded (C04 says they are never validated); map[string]interface{} carriers have two open known findings.", "§3 C03"),
+ "C05": ("reference-model monitor: hand-written three-valued recognisers (no regexp, no time.Parse) vs the library on members, all single-character edits of members and random strings",
+         "For each format/content rule the library's verdict through Var (1/8 also through Struct) is compared with an independent recogniser on valid members from a per-rule constructor, every single-character delete / insert / substitute / transpose of a member, random strings over a hostile alphabet, every datetime separator triple from a 7-symbol set, quoted options and patterns, numeric and slice inputs. Where the documentation does not fix membership the recogniser answers 'unspecified' and the case is counted, not judged.",
+         "Trusts the recognisers' reading of the README; the regexp engine is trusted for re (only pattern extraction is under test); file/dir are judged against a tree the harness created.", "§3 C05"),
+ "C13": ("crash monitor: recover() around every call + child-process exit status and journal, over a directed catalogue, grammar-aware rule mutation and random bytes",
+         "Every public entry point is called with a complete catalogue of nil / typed-nil / nested-nil / wrong-kind inputs, with every rule key under 80 argument mutations (missing, foreign, unbalanced quotes and brackets, 0-6 separators, invalid regex, overflowing bounds, 70 KB, NUL, invalid UTF-8) on values of every kind, and with random bytes as rule text on random run-time synthesised object graphs. Any panic or process-fatal error is a violation, signed by entry point + innermost library function + normalised message.",
+         "Excludes cyclic graphs, panicking user callbacks and reuse of a consumed validator, as the property does; only executed inputs are judged.", "§3 C13"),
 }
 
 NOT_YET = "monitor not built yet in this round (planned, see DESIGN.md §3)"
